@@ -144,12 +144,17 @@ func gen(rng *h.Rng, tier string, emit func(string)) {
 		st.Inc("qseq")
 	}
 	// --- F.3: all sequence lengths 0..1100 with random entropy
-	kinds := 2
+	//     (identity input for every length; inputs with duplicates / arbitrary values for every
+	//     third length in the quick tier, every length in the thorough tier)
+	kinds := 3
 	if thorough {
-		kinds = 6
+		kinds = 9
 	}
 	for k := 0; k < kinds; k++ {
 		for n := 0; n <= 1100; n++ {
+			if !thorough && k > 0 && n > 64 && n%3 != k {
+				continue
+			}
 			emit("shuf " + h.Hex(entropy(rng)) + " " + csv32(seqKind(rng, n, k%3)))
 			st.Inc(fmt.Sprintf("shuf-kind%d", k%3))
 		}
@@ -184,7 +189,7 @@ func gen(rng *h.Rng, tier string, emit func(string)) {
 	tinyEpochs := []uint64{0, 1, 2, 3, 1000, 357913940, 357913941} // the last ones hold slots up to 2^32-1
 	fullEpochs := []uint64{0, 1, 2, 1000, 7158277, 7158278}        // 7158278*600 .. 2^32-1
 	epochsOf("tiny", 12, tinyEpochs, 40*mul, "perms")
-	epochsOf("full", 600, fullEpochs, 3*mul, "perms")
+	epochsOf("full", 600, fullEpochs, mul, "perms")
 	epochsOf("tiny", 12, []uint64{0, 5}, 10*mul, "gas")
 	epochsOf("full", 600, []uint64{uint64(2 + rng.Intn(1000))}, mul, "gas")
 	// single slots
